@@ -1,5 +1,6 @@
 import HeraProofs.Props.C05
 import HeraProofs.Props.C05b
+import HeraProofs.Props.C05c
 open Hera
 #print axioms Enc.subst_of_match
 #print axioms Enc.match_of_subst
@@ -13,3 +14,8 @@ open Hera
 #print axioms Spec.C05_decode_encode
 #print axioms Spec.C05_encode_injective
 #print axioms Spec.C05_encode_lt
+#print axioms substVal_layout
+#print axioms subst_of_val
+#print axioms C05_assemble_is_table
+#print axioms C05_assemble_injective
+#print axioms C05_decode_assemble
